@@ -224,3 +224,74 @@ class InputFileVerdictHistories(Contract):
 
 
 CONTRACTS = CONTRACTS + [InputFileVerdictHistories]
+
+
+class CrossInstanceVerdicts(Contract):
+    """The verdict on an input file does not depend on which other input files the process has handled
+    before: the library's own rule table for the base parameters is the same after any number of
+    InputFile objects were built (with or without rules of their own, with base parameters given as
+    plain values or as forms), and a fixed ui.json gets the same verdict before and after."""
+    target = "geoh5py/ui_json/input_file.py::InputFile.validations.fset"
+    variant = "cross-instance"
+    symbolic = False
+    has_native = True
+    props = ("C15",)
+    bounded_scope = "a probe ui.json (base parameters as plain values) judged before and after 1-3 other InputFile objects are built: with a validations argument or not, with conda_environment / title / run_command given as choice-list or optional forms; the base rule table deep-compared after each (exhaustive over the listed combinations)"
+
+    def native_cases(self, tier, rng):
+        import itertools
+
+        kinds = ("plain", "with-rules", "with-rules-and-choice-form", "choice-form", "optional-form-with-rules")
+        for n in (1, 2):
+            for combo in itertools.product(kinds, repeat=n):
+                yield {"others": list(combo)}
+
+    def native_check(self, case):
+        import copy
+        from copy import deepcopy
+
+        from geoh5py.shared.exceptions import BaseValidationError
+        from geoh5py.ui_json import InputFile, templates
+        from geoh5py.ui_json.constants import base_validations, default_ui_json
+        from geoh5py.workspace import Workspace
+
+        table0 = copy.deepcopy(base_validations)
+
+        def probe(ws):
+            ui = deepcopy(default_ui_json)
+            ui["geoh5"] = ws
+            ui["conda_environment"] = "my_env"
+            ui["title"] = "a title"
+            try:
+                InputFile(ui_json=ui).data
+                return "accepted"
+            except BaseValidationError as exc:
+                return type(exc).__name__
+
+        with Workspace() as ws:
+            first = probe(ws)
+            for kind in case["others"]:
+                ui = deepcopy(default_ui_json)
+                ui["geoh5"] = ws
+                kw = {}
+                if "rules" in kind:
+                    kw["validations"] = {"extra": {"types": [int, type(None)]}}
+                    ui["extra"] = 3
+                if "choice-form" in kind:
+                    ui["conda_environment"] = templates.choice_string_parameter(choice_list=("env_a", "env_b"), value="env_a", label="environment")
+                if "optional-form" in kind:
+                    ui["run_command"] = templates.string_parameter(label="command", value="geoh5py.x", optional="enabled")
+                try:
+                    InputFile(ui_json=ui, **kw).data
+                except BaseValidationError:
+                    pass
+                if base_validations != table0:
+                    changed = sorted(k for k in set(table0) | set(base_validations) if table0.get(k) != base_validations.get(k))
+                    return f"building an InputFile ({kind}) changed the library's rule table for {changed}: {[base_validations.get(k) for k in changed]} ({case})"
+                again = probe(ws)
+                if again != first:
+                    return f"the same ui.json was {first} before and {again} after another InputFile ({kind}) had been built ({case})"
+        return None
+
+
+CONTRACTS = CONTRACTS + [CrossInstanceVerdicts]
